@@ -5,7 +5,7 @@ Proof: Props/C14.v (GalerkinModel.v, GalerkinTheory.v, GalerkinQc.v on top of th
 
 Tie.  poisson_solver.py is numpy/scipy code and cannot be lifted; every solver object is built from the
 CURRENT source and its float tables are read back and converted to the exact rationals they are:
-knots, quadrature points of every cell, weights, multFactor, the values of A, B, C, D, E at the points.
+knots, quadrature points of every cell, weights, multFactor (passed to the model as one factor per cell), the values of A, B, C, D, E at the points.
 
  The function path applies rhoFactor since the repair c0d120c of /repo (theorems c14_rhs_func_spec,
  c14_func_path_eq_discrete_path); a recurrence is reported under DiffEqSolver._solveModeFunc:rhoFactor.
@@ -129,13 +129,24 @@ def int_modes(ntheta):
     return [I if I < (ntheta + 1) // 2 else I - ntheta for I in range(ntheta)]
 
 
+def cell_factors(ps, nc):
+    """the factor that multiplies the weights of [-1,1] in every cell: today one _multFactor for all cells; a solver that
+    keeps per-cell half-widths (attribute _halfWidths, or _cellWeights = weights x half-widths) is read accordingly"""
+    if hasattr(ps, '_halfWidths'):
+        return fr(ps._halfWidths)
+    if hasattr(ps, '_cellWeights'):
+        br = np.asarray(ps._rspline.breaks, dtype=float)
+        return fr((br[1:] - br[:-1]) * 0.5)
+    return [ff(ps._multFactor)] * nc
+
+
 def tables(c, ps):
     """exact copies of the float tables of the solver"""
     P = np.array(ps._evalPts, dtype=float)
     nc, nq = P.shape
     t = {'p': int(ps._rspline.degree), 'nc': int(nc), 'nq': int(nq), 'nb': int(ps._rspline.nbasis),
          'T': fr(ps._rspline.knots), 'pts': [[ff(x) for x in row] for row in P], 'w': fr(ps._weights),
-         'mf': ff(ps._multFactor)}
+         'mf': cell_factors(ps, nc)}
     with warnings.catch_warnings():
         warnings.simplefilter('ignore')
         for name in 'ABCDE':
@@ -146,7 +157,7 @@ def tables(c, ps):
 
 def model_head(t):
     tab = lambda M: qs([x for row in M for x in row])
-    return ' | '.join([qs(t['T']), tab(t['pts']), qs(t['w']), qstr(t['mf'])] + [tab(t[n]) for n in 'ABCDE'])
+    return ' | '.join([qs(t['T']), tab(t['pts']), qs(t['w']), qs(t['mf'])] + [tab(t[n]) for n in 'ABCDE'])
 
 
 # ------------------------------------------------------------------------------------------------
@@ -203,7 +214,7 @@ def oracle_mats(t, nodes):
     S = {k: np.zeros((nb, nb)) for k in KINDS}
     support_ok = True
     for (c, q, x, N, dN, aN) in nodes:
-        W = t['w'][q] * t['mf']
+        W = t['w'][q] * t['mf'][c]
         nz = [a for a in range(nb) if N[a] != 0 or dN[a] != 0]
         if any(a < c or a > c + t['p'] for a in nz):
             support_ok = False
@@ -265,7 +276,7 @@ def oracle_rhs_func(t, nodes, lo, hi, rhot):
         s = F(0)
         for (c, q, x, N, dN, aN) in nodes:
             if N[a] != 0:
-                s += t['w'][q] * t['mf'] * N[a] * x * t['E'][c][q] * rhot[c][q]
+                s += t['w'][q] * t['mf'][c] * N[a] * x * t['E'][c][q] * rhot[c][q]
         out.append(s)
     return out
 
@@ -298,8 +309,8 @@ def check_quadrature(c, ps, t, out):
         a, b = br[cell], br[cell + 1]
         for j in range(2 * n):
             ex = (b ** (j + 1) - a ** (j + 1)) / (j + 1)
-            got = sum(t['w'][q] * t['mf'] * t['pts'][cell][q] ** j for q in range(n))
-            scale = sum(abs(t['w'][q] * t['mf'] * t['pts'][cell][q] ** j) for q in range(n))
+            got = sum(t['w'][q] * t['mf'][cell] * t['pts'][cell][q] ** j for q in range(n))
+            scale = sum(abs(t['w'][q] * t['mf'][cell] * t['pts'][cell][q] ** j) for q in range(n))
             err = abs(float(got - ex)) / max(float(scale), 1e-300)
             worst = max(worst, err)
             out['n_or'] += 1
@@ -777,7 +788,7 @@ def manufactured_stage(c, out):
     rs = [ff(x) for x in r]
     out['model_line'] = ('gk.case %d %d %d | %s | %s | %s | %s | %s | %s | %s | %s | %s | %s | %s |  | %s | f %d %s'
                          % (p, len(brk) - 1, n, ' '.join(map(str, c['lN'])), ' '.join(map(str, c['uN'])), qs(T),
-                            qs([x for row in pts for x in row]), qs(ws), qstr(h), tab([F(-1)]), tab(B), tab(C), tab(D), tab([F(2)]),
+                            qs([x for row in pts for x in row]), qs(ws), qs([h] * (len(brk) - 1)), tab([F(-1)]), tab(B), tab(C), tab(D), tab([F(2)]),
                             qs(rs), c['m'], tab(fh)))
     out['model_values'] = qs([poly_eval(phi, x) for x in rs])
     if len({brk[k + 1] - brk[k] for k in range(len(brk) - 1)}) != 1:
@@ -1019,7 +1030,7 @@ def coq_term_band(line):
     g = [x.split() for x in line[len('gk.dense '):].split('|')]
     p, nc, nq = map(int, g[0])
     return ('gkq_show_mats (gkq_dense %s %d %d %d %s %s %s %s)'
-            % (coq_list(g[1]), p, nc, nq, coq_tab(g[2], nq), coq_list(g[3]), coq_q(g[4][0]), ' '.join(coq_tab(g[k], nq) for k in range(5, 10))))
+            % (coq_list(g[1]), p, nc, nq, coq_tab(g[2], nq), coq_list(g[3]), coq_list(g[4]), ' '.join(coq_tab(g[k], nq) for k in range(5, 10))))
 
 
 def coq_matches(val, ans):
